@@ -78,25 +78,27 @@ Proof.
     + exists w'. split; [lia|]. split; [exact B|exact C].
 Qed.
 
-(* leaves L p : every value p can return satisfies L (any calls allowed) - the carrier of Hoare-style reasoning on decoder monads *)
-Inductive leaves {A : Type} (L : A -> Prop) : sprog A -> Prop :=
-| lv_ret a : L a -> leaves L (SRet a)
-| lv_do c k : (forall r, leaves L (k r)) -> leaves L (SDo c k).
-Lemma leaves_sbind {A B} (L1 : A -> Prop) (L2 : B -> Prop) (p : sprog A) (f : A -> sprog B) :
-  leaves L1 p -> (forall a, L1 a -> leaves L2 (f a)) -> leaves L2 (sbind p f).
-Proof. intros Hp Hf. induction Hp as [a La|c k Hk IH]; cbn [sbind]; auto. constructor. exact IH. Qed.
-Lemma leaves_weaken {A} (L L' : A -> Prop) (p : sprog A) : leaves L p -> (forall a, L a -> L' a) -> leaves L' p.
+(* leaves H L p : every value p can return satisfies L, whatever the source answers and for every output-length hint satisfying H
+   (any calls allowed) - the carrier of Hoare-style reasoning on decoder monads *)
+Inductive leaves {A : Type} (H : N -> Prop) (L : A -> Prop) : sprog A -> Prop :=
+| lv_ret a : L a -> leaves H L (SRet a)
+| lv_next k : (forall b, leaves H L (k b)) -> leaves H L (SDo SNext k)
+| lv_avail k : (forall u, leaves H L (k u)) -> leaves H L (SDo SAvail k)
+| lv_copy n k : (forall l, leaves H L (k l)) -> leaves H L (SDo (SCopyIn n) k)
+| lv_write d k : (forall u, leaves H L (k u)) -> leaves H L (SDo (SWrite d) k)
+| lv_hint k : (forall h, H h -> leaves H L (k h)) -> leaves H L (SDo SHint k).
+Lemma leaves_sbind {A B} (H : N -> Prop) (L1 : A -> Prop) (L2 : B -> Prop) (p : sprog A) (f : A -> sprog B) :
+  leaves H L1 p -> (forall a, L1 a -> leaves H L2 (f a)) -> leaves H L2 (sbind p f).
+Proof. intros Hp Hf. induction Hp; cbn [sbind]; auto; constructor; auto. Qed.
+Lemma leaves_weaken {A} (H : N -> Prop) (L L' : A -> Prop) (p : sprog A) : leaves H L p -> (forall a, L a -> L' a) -> leaves H L' p.
 Proof. intros Hp HL. induction Hp; constructor; auto. Qed.
-Lemma nowrite_leaves {A} (L : A -> Prop) (p : sprog A) : nowrite L p -> leaves L p.
-Proof. intro Hp. induction Hp; constructor; auto. Qed.
-Lemma leaves_run {A} (L : A -> Prop) rule hint (p : sprog A) : leaves L p -> forall s a s', ideal rule hint p s = (SVal a, s') -> L a.
+Lemma leaves_run {A} (H : N -> Prop) (L : A -> Prop) rule hint (p : sprog A) : H hint -> leaves H L p -> forall s a s', ideal rule hint p s = (SVal a, s') -> L a.
 Proof.
-  intro Hp. induction Hp as [a La|c k Hk IH]; intros s a' s' H; cbn [ideal] in H.
-  - inversion H; subst. exact La.
-  - destruct c.
-    + unfold ideal_next in H. destruct (irest s) as [|b r0]; [discriminate|]. exact (IH _ _ _ _ H).
-    + destruct (irest s) as [|b r0]; [discriminate|]. exact (IH _ _ _ _ H).
-    + destruct (ideal_take rule n s []) as [[l s1]|e]; [|discriminate]. exact (IH _ _ _ _ H).
-    + exact (IH _ _ _ _ H).
-    + exact (IH _ _ _ _ H).
+  intros Hh Hp. induction Hp as [a La|k Hk IH|k Hk IH|n k Hk IH|d k Hk IH|k Hk IH]; intros s a' s' E; cbn [ideal] in E.
+  - inversion E; subst. exact La.
+  - unfold ideal_next in E. destruct (irest s) as [|b r0]; [discriminate|]. exact (IH _ _ _ _ E).
+  - destruct (irest s) as [|b r0]; [discriminate|]. exact (IH _ _ _ _ E).
+  - destruct (ideal_take rule n s []) as [[l s1]|e]; [|discriminate]. exact (IH _ _ _ _ E).
+  - exact (IH _ _ _ _ E).
+  - exact (IH _ Hh _ _ _ E).
 Qed.
